@@ -2,7 +2,7 @@
    ExtrOcamlBasic only (bool, option, list, prod, unit, sumbool mapped to the
    OCaml types); Z / positive / N / nat stay the extracted inductive types. *)
 From Coq Require Import Extraction ExtrOcamlBasic.
-From LNC Require Import GoLite MessagesGen QueueGen SyncerGen MsgDataGen SidGen Codec Gbn GbnMonitor GbnHandshake.
+From LNC Require Import GoLite MessagesGen QueueGen SyncerGen MsgDataGen SidGen Codec Gbn GbnMonitor GbnHandshake Timeout.
 
 Extraction Language OCaml.
 Set Extraction KeepSingleton.
@@ -12,4 +12,5 @@ Extraction "lnc_model.ml"
   containsSequence queue_size queue_addPacket queue_processACK queue_processNACK
   syncer_initResendUpTo GetSID
   dstep drun dinit mstep minit mrun split_msg
-  classify s_observe c_observe s_obs_init c_obs_init hstep hrun hinit.
+  classify s_observe c_observe s_obs_init c_obs_init hstep hrun hinit
+  tm_step tm_init get_resend get_handshake fboost32.
